@@ -8,7 +8,7 @@ from itertools import combinations
 
 from vt.common import DEFAULT, TRAITS, all_subsets
 from vt.families.base import config, dedupe, job, orc
-from vt.families.zoo import CONTEXT, IN0, THEORY, ZOO
+from vt.families.zoo import CONTEXT, IN0, THEORY, UNITS, ZOO
 
 NOORC = orc("out", costs=False, multiset=False)
 
@@ -23,6 +23,15 @@ def corpus() -> list[dict]:
 
 def singles() -> list[str]:
     return ZOO + [THEORY[0] + "\n" + THEORY[1]]
+
+
+def family_programs(tier: str):
+    """programs of the per-pass families (result rules x users), re-used for termination under many configurations"""
+    from vt.families import C12, C13  # pylint: disable=import-outside-toplevel
+
+    for fam in (C12, C13):
+        for j in fam.jobs(tier):
+            yield j["prog"], j["configs"][0]["inp"]
 
 
 CORE20 = [
@@ -58,6 +67,15 @@ def jobs(tier: str):
             prog = CONTEXT + "\n" + stm
             cfg = [config(t, i, o, NOORC) for t in cfgs1 for (i, o) in DECLS]
             yield job("C03/single", prog, [], cfg, checks=["terminate"], meta={"stm": stm})
+        for stm in UNITS:
+            prog = CONTEXT + "\n" + stm
+            cfg = [config(t, i, o, NOORC) for t in cfgs1 for (i, o) in DECLS]
+            yield job("C03/unit", prog, [], cfg, checks=["terminate"], meta={"stm": stm})
+        nounused = [t for t in DEFAULT if t != "unused"]
+        famcfg = [["minmax_chains"], ["sum_chains"], nounused, DEFAULT, TRAITS] if quick else CONFIG12 + [nounused]
+        for prog, inp in family_programs(tier):
+            cfg = [config(t, i, o, NOORC) for t in famcfg for (i, o) in ((inp, []),)]
+            yield job("C03/family", prog, [], cfg, checks=["terminate"], meta={})
         cfgs2 = [DEFAULT, TRAITS] if quick else CONFIG12
         for a, b in combinations(singles(), 2):
             prog = CONTEXT + "\n" + a + "\n" + b
